@@ -51,6 +51,14 @@ def view_obj(vd):
         return tuple(np.array(a, dtype=int) for a in vd[1])
     if k == 'bool':
         return np.array(vd[1], dtype=bool)
+    if k == 'bare':                      # a bare integer or slice (not wrapped in a tuple)
+        return vd[1] if isinstance(vd[1], int) else slice(*vd[1])
+    if k == 'bareidx':                   # a bare integer index array (indexes the first axis)
+        return np.array(vd[1], dtype=int)
+    if k == 'idx1':                      # the same wrapped in a 1-tuple
+        return (np.array(vd[1], dtype=int),)
+    if k == 'bool1':                     # a boolean mask wrapped in a 1-tuple
+        return (np.array(vd[1], dtype=bool),)
     raise ValueError(vd)
 
 
@@ -59,15 +67,19 @@ def view_kind(vd):
         return vd
     if vd[0] == 'tuple':
         return 'tuple%d%s' % (len(vd[1]), 'i' if any(isinstance(e, int) for e in vd[1]) else '')
+    if vd[0] == 'bare':
+        return 'bare_int' if isinstance(vd[1], int) else 'bare_slice'
     return vd[0]
 
 
 def is_basic(vd):
-    return isinstance(vd, str) or vd[0] == 'tuple'
+    return isinstance(vd, str) or vd[0] in ('tuple', 'bare')
 
 
 def basic_entries(vd):
-    return [] if isinstance(vd, str) else vd[1]
+    if isinstance(vd, str):
+        return []
+    return [vd[1]] if vd[0] == 'bare' else vd[1]
 
 
 def ventry_enc(e):
@@ -99,6 +111,12 @@ def all_views(shape, rng, alphabet=ALPHABET, maxlen=None):
     out.append(['bool', np.array([rng.random() < .5 for _ in range(n)]).reshape(shape).tolist()])
     out.append(['bool', np.ones(shape, dtype=bool).tolist()])
     out.append(['bool', np.zeros(shape, dtype=bool).tolist()])
+    # every kind also bare, i.e. not wrapped in a tuple (slice vs (slice,), int vs (int,), array vs (array,))
+    for e in alphabet + [[None, -1, None], [-3, None, 2], [2, 1, None]]:
+        out.append(['bare', e if isinstance(e, int) else list(e)])
+    out.append(['bareidx', [rng.randrange(-shape[0], shape[0]) for _ in range(3)]])
+    out.append(['idx1', [rng.randrange(-shape[0], shape[0]) for _ in range(3)]])
+    out.append(['bool1', np.array([rng.random() < .5 for _ in range(n)]).reshape(shape).tolist()])
     return out
 
 
@@ -188,7 +206,11 @@ def selections(d, rng):
         ('slice', S.SliceSubsetState(d, [slice(1, None)] + [slice(None, None, 2)] * (nd - 1))), ('slice_short', S.SliceSubsetState(d, [slice(0, 2)])),
         ('cat', S.CategoricalROISubsetState(att=d.id['c'], roi=ROI.CategoricalROI(['a', 'c']))), ('empty', S.SubsetState()),
         ('roi_xy', S.RoiSubsetState(d.id['x'], d.id['y'], ROI.RectangularROI(-1, 2, 0.5, 4.5))),
-        ('element', S.ElementSubsetState([0, 2], data=d)), ('multirange', S.MultiRangeSubsetState([(0, 1), (2, 3)], pix[-1])),
+        ('element', S.ElementSubsetState([0, 2], data=d)),
+        # flat indices counted from the end, repeated, unordered
+        ('element_neg', S.ElementSubsetState([-1, 0, -n + 1 if n > 1 else 0], data=d)), ('element_dup', S.ElementSubsetState([1 % n, 1 % n, -2 % n, n - 1], data=d)),
+        ('element_arr', S.ElementSubsetState(np.array([-2, 0, -2]) if n > 1 else np.array([0]), data=d)), ('element_empty', S.ElementSubsetState([], data=d)),
+        ('multirange', S.MultiRangeSubsetState([(0, 1), (2, 3)], pix[-1])),
     ]
     if nd >= 2:
         sels += [('roi_pixpix', S.RoiSubsetState(pix[0], pix[-1], ROI.RectangularROI(-.5, 1.5, .5, 2.5))),
@@ -378,13 +400,27 @@ def stream_cross(R):
                    '3 index-array tuples (incl. negative entries and n-d arrays), 3 boolean masks' % (shapes, 27))
 
 
+def finding_key(case):
+    """known finding 'world-array-tuple-not-one-per-axis': ONLY a world attribute (or a selection built on one) under a tuple view whose
+    entries are arrays but not one integer index array per axis: (boolean mask,) or fewer index arrays than dimensions"""
+    vd = case.get('view')
+    name = str(case.get('name', ''))
+    if case.get('stream') in ('cross', 'corpus') and isinstance(vd, list) and (name.startswith('world') or name in ('ineq_world', 'roi_pix_world')):
+        if vd[0] == 'bool1' or (vd[0] == 'idx1' and len(case.get('shape', [])) > 1):
+            return 'world-array-tuple-not-one-per-axis'
+    # known finding 'indexed-bool-mask-in-tuple': ONLY IndexedData values / masks under (mask,) with a mask of >= 2 dimensions
+    if case.get('stream') == 'indexed' and isinstance(vd, list) and vd[0] == 'bool1' and np.asarray(vd[1]).ndim >= 2 and case.get('kind') in ('values', 'mask'):
+        return 'indexed-bool-mask-in-tuple'
+    return None
+
+
 def check_oracle(R, case, got, exp):
     if got[0] == 'err':
-        R.fail('oracle', case, {'raises': got[1], 'message': got[2], 'expected_shape': list(np.asarray(exp).shape)}, key=None)
+        R.fail('oracle', case, {'raises': got[1], 'message': got[2], 'expected_shape': list(np.asarray(exp).shape)}, key=finding_key(case))
         return False
     diff = same(got[1], exp)
     if diff:
-        R.fail('oracle', case, {'difference': diff, 'result': np.asarray(got[1]).tolist(), 'expected': np.asarray(exp).tolist()}, key=None)
+        R.fail('oracle', case, {'difference': diff, 'result': np.asarray(got[1]).tolist(), 'expected': np.asarray(exp).tolist()}, key=finding_key(case))
         return False
     return True
 
@@ -409,6 +445,206 @@ def check_model(R, case, got, o, chk):
         vals = np.array([world_value(d, axis, p) for p in pts], dtype=float).reshape(sh)
         if tuple(sh) != res.shape or not np.array_equal(vals, res):
             R.fail('correspondence', case, {'model_shape': sh, 'impl_shape': list(res.shape), 'model': vals.tolist(), 'impl': res.tolist()})
+
+
+# ------------------------------------------------------------------ corpus of the historic defect inputs (always first)
+def corpus_items():
+    """(id, what, function) ; each function returns a list of (label, thunk computing the result, expected value):
+    the inputs of the twelve repaired defects and of the seeded changes C04-1 .. C04-6"""
+    G.load()
+    S, ROI = G.S, G.ROI
+    A = np.arange
+    items = []
+
+    def item(fn):
+        items.append((fn.__name__, fn.__doc__, fn))
+        return fn
+
+    @item
+    def fix_world_array_view():
+        """F-C04a: world attribute with a boolean mask / a bare index array"""
+        d = G.Data(x=A(4.), coords=G.IdentityCoordinates(n_dim=1))
+        w = d.world_component_ids[0]
+        m = np.array([True, False, True, True])
+        return [('mask', lambda: d[w, m], d[w][m]), ('index array', lambda: d[w, np.array([0, 2])], d[w][np.array([0, 2])])]
+
+    @item
+    def fix_join_component_view():
+        """derived (ComponentLink) and linked attributes with a boolean mask and with the empty tuple"""
+        d = G.Data(x=A(12.).reshape(3, 4), label='a')
+        d.add_component_link(G.ComponentLink([d.id['x']], G.ComponentID('l'), using=_ident))
+        d2 = G.Data(w=A(12.).reshape(3, 4) + 1, label='b')
+        dc = G.DataCollection([d, d2])
+        dc.add_link(G.LinkSame(d.id['x'], d2.id['w']))
+        m = (A(12).reshape(3, 4) % 3 == 0)
+        return [('derived, mask', lambda: d[d.id['l'], m], d[d.id['l']][m]), ('derived, ()', lambda: d[d.id['l'], ()], d[d.id['l']]),
+                ('linked, mask', lambda: d2[d.id['x'], m], d2[d.id['x']][m])]
+
+    @item
+    def fix_empty_tuple_view():
+        """empty tuple view on a world attribute and on a SliceSubsetState"""
+        d = G.Data(x=A(4.), coords=G.IdentityCoordinates(n_dim=1))
+        st = S.SliceSubsetState(d, [slice(1)])
+        return [('world', lambda: d[d.world_component_ids[0], ()], d[d.world_component_ids[0]]), ('slice state', lambda: d.get_mask(st, view=()), d.get_mask(st))]
+
+    @item
+    def fix_slice_state_negative_int():
+        """SliceSubsetState with a negative integer in the view"""
+        d = G.Data(x=np.zeros((3, 4)))
+        st = S.SliceSubsetState(d, [slice(1, None)])
+        return [('(-1,)', lambda: d.get_mask(st, view=(-1,)), np.asarray(d.get_mask(st))[-1]), ('(-1, slice)', lambda: d.get_mask(st, view=(-1, slice(1, None))), np.asarray(d.get_mask(st))[-1, 1:])]
+
+    @item
+    def fix_empty_world_view():
+        """world attribute with a view that selects nothing along an axis"""
+        d = G.Data(x=np.zeros((1, 3)), coords=G.IdentityCoordinates(n_dim=2))
+        w = d.world_component_ids[0]
+        return [('[1:]', lambda: d[w, (slice(1, None),)], d[w][1:])]
+
+    @item
+    def fix_categorical_scalar_view():
+        """CategoricalROISubsetState with an all-integer view"""
+        d = G.Data(c=np.array(['a', 'b', 'a']))
+        st = S.CategoricalROISubsetState(att=d.id['c'], roi=ROI.CategoricalROI(['a']))
+        return [('(0,)', lambda: d.get_mask(st, view=(0,)), np.asarray(d.get_mask(st))[0])]
+
+    @item
+    def fix_scalar_view_subset_axis():
+        """F-C04b: IndexedData.compute_statistic with a subset state and an axis"""
+        x = A(24.).reshape(2, 3, 4)
+        d = G.Data(x=x)
+        ix = G.IndexedData(d, (None, None, 0))
+        return [('sum axis 0', lambda: ix.compute_statistic('sum', d.id['x'], subset_state=d.id['x'] > 2, axis=0), textbook_sum(x[:, :, 0], x[:, :, 0] > 2, 0))]
+
+    @item
+    def fix_indexed_views():
+        """IndexedData views: Ellipsis, shorter tuple, bare slice, boolean mask"""
+        x = A(24.).reshape(2, 3, 4)
+        d = G.Data(x=x)
+        ix = G.IndexedData(d, (None, 1, None))
+        c = ix.main_components[0]
+        m = (A(8).reshape(2, 4) % 3 == 0)
+        r = x[:, 1, :]
+        return [('Ellipsis', lambda: ix.get_data(c, view=Ellipsis), r), ('(0,)', lambda: ix.get_data(c, view=(0,)), r[0]),
+                ('bare slice', lambda: ix.get_data(c, view=slice(1, None)), r[1:]), ('mask', lambda: ix.get_data(c, view=m), r[m])]
+
+    @item
+    def fix_indexed_histogram_cid():
+        """IndexedData.compute_histogram with the component ids of the indexed dataset"""
+        x = A(24.).reshape(2, 3, 4)
+        d = G.Data(x=x)
+        ix = G.IndexedData(d, (None, 1, None))
+        return [('histogram', lambda: ix.compute_histogram([ix.main_components[0]], range=[(-0.5, 23.5)], bins=[3]), np.histogram(x[:, 1, :], range=(-0.5, 23.5), bins=3)[0])]
+
+    @item
+    def fix_roi_shortcut_nd_index_arrays():
+        """pixel-space ROI shortcut with index arrays that have as many dimensions as the data"""
+        d = G.Data(x=np.zeros((2, 3, 4)))
+        p = d.pixel_component_ids
+        st = S.RoiSubsetState(p[0], p[2], ROI.RectangularROI(-.5, 1.5, .5, 2.5))
+        v = tuple(np.random.RandomState(0).randint(0, n, size=(2, 2, 2)) for n in d.shape)
+        return [('3-d arrays', lambda: d.get_mask(st, v), np.asarray(d.get_mask(st))[v])]
+
+    @item
+    def fix_world_negative_index_arrays():
+        """world attribute with negative entries in integer index arrays (also seeded C04-5: non-square shape)"""
+        d = G.Data(x=np.zeros((3, 5)), coords=G.IdentityCoordinates(n_dim=2))
+        v = (np.array([-1, 0, -3]), np.array([-1, -4, 2]))
+        out = []
+        for k, w in enumerate(d.world_component_ids):
+            out.append(('axis %d' % k, (lambda w=w: d[w, v]), d[w][v]))
+        return out
+
+    @item
+    def fix_slice_state_int_and_arrays():
+        """SliceSubsetState with integers mixed with index arrays (IndexedData.get_mask with index arrays)"""
+        d = G.Data(x=np.zeros((3, 4)))
+        st = S.SliceSubsetState(d, [slice(1, None)])
+        return [('indexed', lambda: G.IndexedData(d, (1, None)).get_mask(st, view=(np.array([0, 2]),)), np.asarray(d.get_mask(st))[1][np.array([0, 2])])]
+
+    @item
+    def seed1_roi_on_linked_pixels():
+        """seeded C04-1: ROI on the pixel coordinates of a 2-d image linked to the last two axes of a cube"""
+        cube = G.Data(v=A(24.).reshape(2, 3, 4), label='cube')
+        image = G.Data(w=A(12.).reshape(3, 4), label='image')
+        dc = G.DataCollection([cube, image])
+        dc.add_link(G.LinkSame(image.pixel_component_ids[0], cube.pixel_component_ids[1]))
+        dc.add_link(G.LinkSame(image.pixel_component_ids[1], cube.pixel_component_ids[2]))
+        st = S.RoiSubsetState(xatt=image.pixel_component_ids[1], yatt=image.pixel_component_ids[0], roi=ROI.RectangularROI(1.5, 3.5, 0.5, 2.5))
+        k, j, i = np.meshgrid(A(2), A(3), A(4), indexing='ij')
+        ref = (i > 1.5) & (i < 3.5) & (j > 0.5) & (j < 2.5)
+        out = [('full mask', lambda: cube.get_mask(st), ref)]
+        for v in [(0,), (slice(None), 1), (slice(None), slice(None), 3), (slice(None), slice(1, 3), slice(1, None, 2))]:
+            out.append((repr(v), (lambda v=v: cube.get_mask(st, view=v)), ref[v]))
+        return out
+
+    @item
+    def seed2_indexed_negative_index_histogram():
+        """seeded C04-2: histogram of an IndexedData whose index is -1"""
+        x = A(60.).reshape(3, 4, 5)
+        d = G.Data(x=x)
+        ix = G.IndexedData(d, (None, 1, None))
+        ix.indices = (None, -1, None)
+        exp = np.histogram(x[:, -1, :], range=(-0.5, 59.5), bins=6)[0]
+        return [('reassigned', lambda: ix.compute_histogram([d.id['x']], range=[(-0.5, 59.5)], bins=[6]), exp),
+                ('fresh', lambda: G.IndexedData(d, (None, -1, None)).compute_histogram([d.id['x']], range=[(-0.5, 59.5)], bins=[6]), exp)]
+
+    @item
+    def seed3_indexed_read_reassign_read():
+        """seeded C04-3: read without a view, reassign the indices, read again without a view"""
+        x = A(24.).reshape(2, 3, 4)
+        d = G.Data(x=x)
+        ix = G.IndexedData(d, (None, 0, None))
+        ix.get_data(d.id['x'])
+        ix.get_mask(d.id['x'] > 5)
+        ix.indices = (None, 2, None)
+        return [('values', lambda: ix.get_data(d.id['x']), x[:, 2, :]), ('mask', lambda: ix.get_mask(d.id['x'] > 5), x[:, 2, :] > 5),
+                ('statistic', lambda: ix.compute_statistic('sum', d.id['x']), x[:, 2, :].sum())]
+
+    @item
+    def seed4_slice_state_negative_index_arrays():
+        """seeded C04-4: SliceSubsetState under one integer index array per axis with negative entries"""
+        d = G.Data(x=np.zeros((3, 4)))
+        st = S.SliceSubsetState(d, [slice(1, None), slice(None, None, 2)])
+        v = (np.array([-1, 0, -2, 2]), np.array([-2, 0, -4, 1]))
+        return [('arrays', lambda: d.get_mask(st, view=v), np.asarray(d.get_mask(st))[v])]
+
+    @item
+    def seed6_element_state_bare_slice():
+        """seeded C04-6: ElementSubsetState with indices counted from the end, 1-d data, a bare slice as view"""
+        d = G.Data(x=A(6.))
+        st = S.ElementSubsetState([-1, 0, -3, -3], data=d)
+        full = np.zeros(6, dtype=bool)
+        full[[-1, 0, -3]] = True
+        out = [('full mask', lambda: d.get_mask(st), full)]
+        for sl_ in (slice(None), slice(2, None), slice(1, None, 2), slice(None, -1)):
+            out.append(('bare %r' % (sl_,), (lambda sl_=sl_: d.get_mask(st, view=sl_)), full[sl_]))
+            out.append(('tuple (%r,)' % (sl_,), (lambda sl_=sl_: d.get_mask(st, view=(sl_,))), full[sl_]))
+        return out
+
+    return items
+
+
+def _ident(a):
+    return a
+
+
+def stream_corpus(R):
+    n = 0
+    for cid, what, fn in corpus_items():
+        r = call(fn)
+        if r[0] == 'err':
+            R.fail('oracle', {'stream': 'corpus', 'id': cid, 'what': what, 'label': 'setup'}, {'raises': r[1], 'message': r[2]}, key=None)
+            continue
+        for label, thunk, exp in r[1]:
+            n += 1
+            case = {'stream': 'corpus', 'id': cid, 'what': what, 'label': label}
+            R.count(('corpus', cid, label), nontrivial=True, stream='corpus', what='corpus')
+            check_oracle(R, case, call(thunk), exp)
+    R.stream('corpus', cases=n, exhaustive=True,
+             bound='fixed inputs of the twelve repaired defects (F-C04a, join_component_view, empty tuple, negative integer, empty world view, categorical scalar, '
+                   'F-C04b, IndexedData views, IndexedData histogram ids, n-d index arrays in the ROI shortcut, negative index arrays, integers mixed with index arrays) '
+                   'and of the seeded changes C04-1 .. C04-6')
 
 
 # ------------------------------------------------------------------ stream: SliceSubsetState, small-scope exhaustive
@@ -615,6 +851,7 @@ def run(R):
     R.rule = ('cross product {attribute kinds} x {views} and {selection kinds} x {views} on small datasets of every coordinate kind (exhaustive over the view alphabet), '
               'an exhaustive small-scope stream for SliceSubsetState (sampled in the quick tier), and IndexedData for every pattern of removed dimensions; a case is '
               'non-trivial when the view is not the identity and the expected result is non-empty (for masks: contains a True); distinct = distinct canonical inputs')
+    stream_corpus(R)
     stream_slice_state(R)
     stream_cross(R)
     stream_indexed(R)
@@ -639,7 +876,17 @@ def replay(R, case):
     G.load()
     out = {'case': case}
     st = case.get('stream')
-    if st == 'slice_state':
+    if st == 'corpus':
+        out['violates'] = False
+        for cid, what, fn in corpus_items():
+            if cid == case['id']:
+                for label, thunk, exp in fn():
+                    if label == case.get('label'):
+                        got = call(thunk)
+                        out['expected'] = np.asarray(exp).tolist()
+                        out['implementation'] = np.asarray(got[1]).tolist() if got[0] == 'ok' else list(got)
+                        out['violates'] = got[0] == 'err' or same(got[1], exp) is not None
+    elif st == 'slice_state':
         sh = tuple(case['shape'])
         d = G.Data(x=np.zeros(sh))
         state = G.S.SliceSubsetState(d, [slice(*s) for s in case['slices']])
